@@ -82,7 +82,52 @@ def handle (op _opts payload : String) : String :=
   else "bad-request"
 end PO
 
+/-! ### FCHK objects: `x<title>;<x run type|->;<x lot|->;<x basis|->;store`, a store entry is `x<attr>:<i|r|I|R|S>:<payload>`
+(`S`: symmetric matrix `n|t/t/…` by its lower triangle); loaded: `x<title>;<x run type|->;x<lot>;<x basis|->;store`
+(`load`: without the pass-through entries `=<label>`; `loadall`: with them) -/
+namespace FO
+open Iodata.Fmt.FchkO
+
+def decVal (k p : String) : AVal :=
+  if k == "i" then .isca (decInt p) else if k == "r" then .sca (F.decSci p)
+  else if k == "I" then .ivec (decList "/" decInt p) else if k == "R" then .vec (decList "/" F.decSci p)
+  else match p.splitOn "|" with
+    | [n, t] => .sym (decNat n) (decList "/" F.decSci t)
+    | _ => .sym 0 []
+def encVal : AVal → String
+  | .isca i => "i:" ++ toString i
+  | .sca x => "r:" ++ F.encSci x
+  | .ivec l => "I:" ++ encList "/" (fun (i : Int) => toString i) l
+  | .vec l => "R:" ++ encList "/" F.encSci l
+  | .sym n t => "S:" ++ toString n ++ "|" ++ encList "/" F.encSci t
+
+def decEntry (s : String) : Str × AVal :=
+  match s.splitOn ":" with
+  | [a, k, p] => (decStr a, decVal k p)
+  | _ => ([], .isca 0)
+def encEntry (e : Str × AVal) : String := encStr e.1 ++ ":" ++ encVal e.2
+
+def decObj (s : String) : Obj :=
+  match s.splitOn ";" with
+  | [t, rt, lot, bas, st] => ⟨decStr t, F.decOpt rt, F.decOpt lot, F.decOpt bas, decList "," decEntry st⟩
+  | _ => ⟨[], none, none, none, []⟩
+def encLoaded (all : Bool) (x : Loaded) : String :=
+  ";".intercalate [encStr x.title, F.encOpt x.runType, encStr x.lot, F.encOpt x.basis,
+    encList "," (fun (t : String) => t) ((((x.store.filter fun e => all || e.1.head? != some '=').map encEntry).toArray.qsort (· < ·)).toList)]
+
+def handle (op _opts payload : String) : String :=
+  let L := Gen.Layouts.fchkL
+  let Rn := Gen.Layouts.fchkRunTypes
+  if op == "dump" then okHex (dump L Rn Gen.LayoutsW.fchkW (decObj payload))
+  else if op == "load" || op == "loadall" then
+    match load L Rn Gen.LayoutsW.fchkR (linesOfHex payload) with
+    | .ok o => "ok " ++ encLoaded (op == "loadall") o
+    | .error _ => "err LoadError"
+  else "bad-request"
+end FO
+
 def handle : List String → Option String
+  | ["fmtw", op, "fchk", opts, payload] => some (FO.handle op opts payload)
   | ["fmtw", op, "poscar", opts, payload] => some (PO.handle op opts payload)
   | ["fmtw", op, "fcidump", opts, payload] => some (FC.handle op opts payload)
   | _ => none
